@@ -227,6 +227,19 @@ def set_sort_key(x):
 PY_ASTS = {}   # source text -> ast of every !py value built by to_py (for canonicalising back)
 
 
+def register_asts(obj):
+    """Walk any JSON structure and remember the ast of every {'py': ast} node by its source."""
+    if isinstance(obj, dict):
+        if 'py' in obj and isinstance(obj['py'], list) and 'src' not in obj:
+            PY_ASTS[render_expr(obj['py'])] = obj['py']
+            return
+        for x in obj.values():
+            register_asts(x)
+    elif isinstance(obj, list):
+        for x in obj:
+            register_asts(x)
+
+
 def to_py(v, opaque=None, dict_cls=dict):
     """pv -> real Python object. `opaque` maps obj index -> object (shared identity)."""
     from pypyr.dsl import PyString, SicString, Jsonify
